@@ -361,3 +361,6 @@ def run(repo: Repo, rep: Report, tier: str) -> None:
 
     share_rules(repo, rep, tier, "c10", {"C10.R1": "C07.R19", "C10.R2": "C07.R20", "C10.R3": "C07.R21"},
                 "an array length written as an expression is computed by the expression evaluator: a mis-evaluated length is a wrong element count")
+    from .c13 import parser_fold_rule
+
+    parser_fold_rule(repo, rep, "C07.R22")
